@@ -4,10 +4,10 @@
    CpcCodecTables.v, CpcCodecProofs.v. All statements are partial-correctness statements about the executable
    model ([Some] = the C++ code neither throws nor runs into undefined behaviour) and hold for EVERY lg_k, every
    seed and every sequence of row_col pairs (arbitrary hash functions), not only for Murmur-derived ones. *)
-From Coq Require Import ZArith NArith List Bool Lia Sorted.
+From Coq Require Import ZArith NArith List Bool Lia Sorted Permutation.
 From DS.gen Require Import CpcTablesGen.
 From DS Require Import Word Murmur3 RunnerLib CpcDefs CpcTableProofs CpcBits CpcSketchInv CpcProofs
-     CpcCodecTables CpcCodecDefs CpcCodecProofs Regression_cpc.
+     CpcUnionProofs CpcCodecTables CpcCodecDefs CpcCodecProofs Regression_cpc.
 Import ListNotations.
 Local Open Scope N_scope.
 
@@ -75,6 +75,40 @@ Theorem C05_rebuilt_from_matrix : forall l hist m off t0 win t' ored sd mg nc,
   Core l (mkS l sd mg nc t' win off (if off <? ctz64 ored then off else ctz64 ored)) hist.
 Proof. exact rebuilt_core. Qed.
 
+(* --- the union: every sequence of inputs (EMPTY / SPARSE / HYBRID / PINNED / SLIDING, any lg_k <= 26, any order);
+   an input is any sketch satisfying the invariant for some coupon history (sketches built by updates:
+   input_ok_of_run; results of other unions: C05_union_spec itself) --- *)
+Theorem C05_union_spec : forall lgu sd ins u r,
+  lgu <= 26 -> Forall input_ok ins ->
+  union_run (un_new lgu sd) (map fst ins) = Some u -> get_result u = Some r -> woff r <= 56 ->
+  let L := union_lg lgu (descr ins) in              (* min over the union and the NON-EMPTY inputs *)
+  lgk r = L /\ SInv L r (union_log lgu (descr ins)).
+Proof. exact union_spec. Qed.
+
+(* matrix form: result matrix = OR over the inputs of their matrices with rows folded modulo 2^L *)
+Theorem C05_union_matrix : forall lgu sd ins u r,
+  lgu <= 26 -> Forall input_ok ins ->
+  union_run (un_new lgu sd) (map fst ins) = Some u -> get_result u = Some r -> woff r <= 56 ->
+  let L := union_lg lgu (descr ins) in
+  build_bit_matrix r = Some (spec_matrix L (union_log lgu (descr ins))) /\
+  ncoup r = sum_popcount (spec_matrix L (union_log lgu (descr ins))) /\
+  forall row c, row < 2 ^ L -> c < 64 ->
+    (bit (spec_matrix L (union_log lgu (descr ins))) row c = true <->
+     exists p row', In p ins /\ row' < 2 ^ lgk (fst p) /\ row' mod 2 ^ L = row /\
+                    bit (spec_matrix (lgk (fst p)) (snd p)) row' c = true).
+Proof. exact union_matrix. Qed.
+
+Theorem C05_union_perm : forall lgu sd ins ins' u u' r r',
+  lgu <= 26 -> Forall input_ok ins -> Permutation ins ins' ->
+  union_run (un_new lgu sd) (map fst ins) = Some u -> get_result u = Some r -> woff r <= 56 ->
+  union_run (un_new lgu sd) (map fst ins') = Some u' -> get_result u' = Some r' -> woff r' <= 56 ->
+  lgk r = lgk r' /\ build_bit_matrix r = build_bit_matrix r' /\ ncoup r = ncoup r' /\ woff r = woff r'.
+Proof. exact union_perm. Qed.
+
+Theorem C05_union_inputs_from_runs : forall l sd rcs s,
+  valid_rcs l rcs -> l <= 26 -> sk_run l sd rcs = Some s -> input_ok (s, rev rcs).
+Proof. exact input_ok_of_run. Qed.
+
 (* --- compression (second stage): the low-level codec of cpc_compressor_impl.hpp, on the TRANSLATED tables --- *)
 Theorem C05_bytes_codec_rt : forall ti bytes, (ti < 22)%nat ->
   Forall (fun b => b < 256) bytes -> N.of_nat (length bytes) < 2 ^ 32 ->
@@ -139,6 +173,16 @@ Example C05_table_nonvacuous :
                bs = [true; true; false; true; false; true; true; true; true] /\ t_lg t = 3.
 Proof. vm_compute. eexists. eexists. repeat split; reflexivity. Qed.
 
+(* non-vacuity of the union theorems: a SLIDING lg_k=5 sketch, a SPARSE lg_k=6 sketch and an empty lg_k=4 sketch into a
+   union of lg_k 7: result lg_k = 5 (the empty input does not count), 97 coupons *)
+Definition ex_a : list N := flat_map (fun c => map (fun r => rcp r c) [0;1;2;3;4;5;6;7;8;9;10;11;12;13;14;15;16;17;18;19;20;21;22;23;24;25;26;27;28;29;30;31]) [0;1;2].
+Definition ex_b : list N := [rcp 40 3; rcp 8 0; rcp 63 9].
+Example C05_union_nonvacuous :
+  (do sa <- sk_run 5 9001 ex_a; do sb <- sk_run 6 9001 ex_b; do se <- sk_run 4 9001 [];
+   do u <- union_run (un_new 7 9001) [sb; se; sa]; do r <- get_result u;
+   Some (lgk r, ncoup r, woff r <=? 56, union_lg 7 [(6, rev ex_b); (4, []); (5, rev ex_a)])) = Some (5, 98, true, 5).
+Proof. vm_compute. reflexivity. Qed.
+
 Print Assumptions C05_table_refines_set.
 Print Assumptions C05_matrix_exact.
 Print Assumptions C05_count_distinct.
@@ -150,6 +194,10 @@ Print Assumptions C05_flavor_window.
 Print Assumptions C05_representation.
 Print Assumptions C05_update_refines.
 Print Assumptions C05_rebuilt_from_matrix.
+Print Assumptions C05_union_spec.
+Print Assumptions C05_union_matrix.
+Print Assumptions C05_union_perm.
+Print Assumptions C05_union_inputs_from_runs.
 Print Assumptions C05_bytes_codec_rt.
 Print Assumptions C05_pairs_codec_rt.
 Print Assumptions C05_pairs_codec_total.
